@@ -167,6 +167,7 @@ pub fn new_boxed<T: MaybeDynSized<Metadata = usize> + ?Sized>(header: T::Header,
 // ---------------------------------------------------------------------------
 //@extract multiboot2-common/src/boxed.rs :: fn clone_dyn
 //@  ret r
+//@  optional
 //@  sigrewrite /\(tag: &T\) -> \(r: Box<T>\)/ => /(tag: &T) -> (r: Box<T>) where T::Header: HeaderSetSize + Clone/
 //@  rewrite /new_boxed\(tag\.header\(\)\.clone\(\), &\[&tag\.payload\(\)\[\.\.(\w+)\]\]\)/ => /{ let hr = tag.header(); let h = hr.clone(); proof { assert(vstd::pervasive::cloned(*hr, h)); assert(h == clone_src_hdr(tag)); } let pl: &[u8] = vslice(tag.payload(), 0, \1); let parts: [&[u8]; 1] = [pl]; proof { assert(parts@ =~= Seq::<&[u8]>::empty().push(pl)); broadcast use lemma_concat_push, lemma_concat_empty; assert(concat_slices(parts@) =~= pl@); assert(size_of::<T::Header>() + pl@.len() == clone_src_hdr(tag).declared_total()); } new_boxed(h, parts.as_slice()) }/
 //@  prologue proof { clone_src_hdr(tag).lemma_hdr_layout(); }
